@@ -19,6 +19,7 @@ def run_history(tid, client_name, cfg, scripts, rng, tid0=None, uid=None):
     clock = C.VClock()
     kind0 = C.CLIENTS[client_name][0]
     line = C.Line(clock, kind0)
+    line.echo = client_name.endswith("-echo")
     txns = []
     with C.Patches(clock, line):
         kind, client, dec = C.make_client(client_name, cfg)
@@ -65,6 +66,7 @@ def gen(prop, tier, rng):
         if rng.random() < 0.05:
             hist = hist + ["CONNFAIL", ["own"]]
         tid0 = rng.choice([None, None, 65533, 65534, 65535])
+        cfg = dict(cfg, backoff=rng.choice([-1, -1, 0, 0.05, 2]))      # the documented back-off option: default, none, short, long
         traces.append(run_history("c%d" % k, cl, cfg, hist, rng, tid0=tid0))
         k += 1
     return traces
@@ -107,6 +109,11 @@ def run(prop, tier):
         if "GhostScript" in v["clauses"]:
             raise MachineryError("harness script inconsistent with the frames it fed: %s" % tid)
         mine = set(v["clauses"]) & mine_set
+        if prop == "C08" and "Honoured" in v["clauses"] and x["script"][:1] in (["own"], ["ownExc"]) and not x.get("pending_at_start", 0) \
+                and not x.get("connfail"):
+            # "a well-formed reply from a conformant server ... is returned decoded": the first attempt on a clean line was answered
+            # by exactly such a reply and the call did not return it - that is C08's statement too, not only C13's
+            mine = mine | {"Honoured"}
         if not mine:
             sibling += 1
             continue
